@@ -246,11 +246,8 @@ func runC20(c *core.Ctx) {
 			guarded := false
 			for _, cnd := range core.EdgeFacts(ins.Block()) {
 				nrm := core.Normalize(cnd)
-				if inv, isC := nrm.V.(*ssa.Call); isC && inv.Call.IsInvoke() {
-					m := inv.Call.Method.Name()
-					if (m == "IsNil" && !nrm.True || m == "IsPresent" && nrm.True) && c20isJustOf(inv.Call.Value, f.Params[1]) {
-						guarded = true
-					}
+				if absent, isTest := c20absenceTest(nrm, f.Params[1]); isTest && !absent {
+					guarded = true
 				}
 			}
 			if !guarded {
@@ -262,11 +259,8 @@ func runC20(c *core.Ctx) {
 			absent := false
 			for _, cnd := range rc.Facts {
 				nrm := core.Normalize(cnd)
-				if inv, isC := nrm.V.(*ssa.Call); isC && inv.Call.IsInvoke() {
-					m := inv.Call.Method.Name()
-					if (m == "IsNil" && nrm.True || m == "IsPresent" && !nrm.True) && c20isJustOf(inv.Call.Value, f.Params[1]) {
-						absent = true
-					}
+				if isAbsent, isTest := c20absenceTest(nrm, f.Params[1]); isTest && isAbsent {
+					absent = true
 				}
 			}
 			if absent {
@@ -1202,8 +1196,34 @@ func c20probe(p *core.Prog, f *ssa.Function, v ssa.Value, depth int) string {
 func c20isKindCall(v ssa.Value) bool {
 	call, ok := core.Resolve(v).(*ssa.Call)
 	if !ok {
+		// an unexported package-level variable that is written once, by its initialiser, stands for that value
+		if iv := onceInitialised(v); iv != nil {
+			call, ok = core.Resolve(iv).(*ssa.Call)
+		}
+	}
+	if !ok {
 		return false
 	}
 	n := core.StdCallee(&call.Call)
 	return n == "reflect.(Value).Kind" || n == "reflect.(Type).Kind" || (call.Call.IsInvoke() && call.Call.Method.Name() == "Kind")
+}
+
+// c20absenceTest: the decided condition is the library's absence test of prm - Maybe.Just(prm).IsNil() /
+// .IsPresent(), or the package-level IsNil(prm) the former is defined by - and says "absent" (true) or "present".
+func c20absenceTest(nrm core.Cond, prm *ssa.Parameter) (absent, ok bool) {
+	call, isC := nrm.V.(*ssa.Call)
+	if !isC {
+		return false, false
+	}
+	if call.Call.IsInvoke() {
+		m := call.Call.Method.Name()
+		if (m == "IsNil" || m == "IsPresent") && c20isJustOf(call.Call.Value, prm) {
+			return (m == "IsNil") == nrm.True, true
+		}
+		return false, false
+	}
+	if g := core.Callee(&call.Call); g != nil && core.FuncName(g) == "fpgo.IsNil" && len(call.Call.Args) == 1 && core.Resolve(core.Unwrap(call.Call.Args[0])) == ssa.Value(prm) {
+		return nrm.True, true
+	}
+	return false, false
 }
